@@ -49,7 +49,10 @@ def run(ck, progs):
     ck.rule("C12.6", "arena lookup by address: the midpoint of the binary search lies within [low, high] for all bounds (no counterexample in an "
                      "exhaustive small domain and a recognised shape), each branch moves a bound strictly past the midpoint, and new arenas are "
                      "inserted in address order")
+    ck.rule("C12.7", "buddy-tree bookkeeping on small order values: every node starts with order total - depth; the search goes right exactly when the left subtree cannot hold the request; freeing sets the parent to order + 1 only when both halves are wholly free, else to the larger; the size reported for a freed block is 1 << its order")
     for cfg, P in progs.items():
+        from .. import rules_buddy
+        rules_buddy.check(ck, P, "C12.7")
         _find_by_address(ck, P, cfg)
         _index_arithmetic(ck, P, cfg)
         _clean_failure(ck, P, cfg)
